@@ -992,6 +992,17 @@ def oracle_climate(case, rec):
             np.linalg.cond(C) < 1e6
         if not usable:
             rec.label("partial_singular_skipped")
+            # no reference value exists for a singular correlation matrix,
+            # but whatever comes back is a correlation: symmetric and bounded
+            if not np.isnan(C).any() and np.isfinite(sim).all():
+                rec.label("partial_singular_bounded_symmetric_checked")
+                rec.close(sim, sim.T, "partial_singular_similarity_symmetric",
+                          rtol=1e-6, atol=1e-6)
+                rec.check(bool(np.all(sim[off] <= 1 + 1e-4)),
+                          "partial_singular_similarity_bounded",
+                          "largest off-diagonal value %r (T=%d, N=%d)" % (
+                              float(sim[off].max()) if off.any() else None,
+                              Ta, N))
             return
         rec.label("partial_compared")
         ref, kept = R.partial_correlation_matrix(A)
@@ -1087,6 +1098,11 @@ def climate_cases(draw):
                              degenerate=not plain, affine=not plain))
         x = x[:(len(x) // 12) * 12]
         cyc = 12
+    elif kind == "partial" and draw(st.integers(0, 3)) == 0:
+        # more nodes than samples: the correlation matrix is singular
+        x = draw(data_arrays(t_min=5, t_max=14, n_min=8, n_max=22,
+                             kinds=("fine", "small"), structure=False))
+        cyc = 1
     else:
         x = draw(data_arrays(t_min=4 if kind != "partial" else 8, t_max=60,
                              kinds=kinds, degenerate=not plain,
